@@ -65,6 +65,7 @@ where
     subscriptions: Arc::new(Mutex::new(HashSet::new())),
     closed: AtomicBool::new(false),
   };
+  dispatcher.register_mailbox(&receiver.producer_mailbox);
 
   (sender, receiver)
 }
@@ -97,6 +98,7 @@ where
     subscriptions: Arc::new(Mutex::new(HashSet::new())),
     closed: AtomicBool::new(false),
   };
+  dispatcher.register_mailbox(&receiver.producer_mailbox);
 
   (sender, receiver)
 }
